@@ -551,7 +551,10 @@ func (g *gen) rangeStmt(depth int) []Node {
 		pre = append(pre, &Let{Names: []string{n.K}, Es: []Expr{Lit{Str(g.tok("s"))}}})
 		g.frames[len(g.frames)-2] = append(g.frames[len(g.frames)-2], n.K)
 		g.kinds[n.K] = KInt
-		if n.Form == 2 {
+		if n.Form == 2 && g.r.Intn(6) == 0 {
+			n.V = "_" // the value is discarded: nothing to declare, '.' stays
+			g.feat["range-assign-discard-value"] = true
+		} else if n.Form == 2 {
 			n.V = g.tok("v")
 			pre = append(pre, &Let{Names: []string{n.V}, Es: []Expr{Lit{Str(g.tok("s"))}}})
 			g.frames[len(g.frames)-2] = append(g.frames[len(g.frames)-2], n.V)
@@ -560,9 +563,22 @@ func (g *gen) rangeStmt(depth int) []Node {
 		g.feat["range-assign"] = true
 	} else if n.Form > 0 {
 		n.K = g.tok("v")
-		g.declare(n.K, KInt)
 		if n.Form == 2 {
 			n.V = g.tok("v")
+			// '_' discards the index/key or the value; nothing else changes (in particular '.' stays what it was)
+			switch g.r.Intn(8) {
+			case 0:
+				n.V = "_"
+				g.feat["range-discard-value"] = true
+			case 1:
+				n.K = "_"
+				g.feat["range-discard-key"] = true
+			}
+		}
+		if n.K != "_" {
+			g.declare(n.K, KInt)
+		}
+		if n.Form == 2 && n.V != "_" {
 			g.declare(n.V, KInt)
 		}
 	}
@@ -573,7 +589,7 @@ func (g *gen) rangeStmt(depth int) []Node {
 			g.kinds[n.K] = KStr
 		}
 	case 2:
-		if elemStr {
+		if elemStr && n.V != "_" {
 			g.kinds[n.V] = KStr
 		}
 	}
@@ -584,10 +600,10 @@ func (g *gen) rangeStmt(depth int) []Node {
 	// body: show the bindings, optionally capture them into an outer variable
 	var body []Node
 	body = append(body, &Text{S: "<r:"})
-	if n.Form >= 1 {
+	if n.Form >= 1 && n.K != "_" {
 		body = append(body, &Text{S: "k="}, &Print{E: Var{n.K}}, &Text{S: ";"})
 	}
-	if n.Form == 2 {
+	if n.Form == 2 && n.V != "_" {
 		body = append(body, &Text{S: "v="}, &Print{E: Var{n.V}}, &Text{S: ";"})
 	}
 	if g.ctx == 1 {
@@ -600,10 +616,12 @@ func (g *gen) rangeStmt(depth int) []Node {
 		pre = append(pre, &Let{Names: []string{cap}, Es: []Expr{Lit{Str(g.tok("s"))}}})
 		var src Expr
 		switch {
-		case n.Form == 2 && g.r.Intn(2) == 0:
+		case n.Form == 2 && n.V != "_" && (n.K == "_" || g.r.Intn(2) == 0):
 			src = Var{n.V}
-		case n.Form >= 1:
+		case n.Form >= 1 && n.K != "_":
 			src = Var{n.K}
+		case n.Form >= 1:
+			src = Lit{Str(g.tok("s"))}
 		default:
 			src = Dot{}
 		}
